@@ -15,9 +15,10 @@ contract("helpers.filter_citations",
         "distinct_spans": "forall(lambda j, j2: implies(0 <= j and j < j2 and j2 < len(result), result[j].span() != result[j2].span()))",
         # citations are returned in increasing order of their position in the text
         "ordered_by_span": "forall(lambda j, j2: implies(0 <= j and j < j2 and j2 < len(result), result[j].span() <= result[j2].span()))",
-        # merging keeps every non-reference citation (unless a later element of the list has the very same span)
+        # merging keeps every non-reference citation (of several NON-reference citations with the very same span the last one is kept:
+        # "no two returned citations have identical spans"); a reference citation never displaces one
         "keeps_non_references": "forall(lambda i: implies(0 <= i and i < len(citations) and not isinstance(citations[i], ReferenceCitation) "
-                                "and forall(lambda i2: implies(i < i2 and i2 < len(citations), citations[i2].span() != citations[i].span())), "
+                                "and forall(lambda i2: implies(i < i2 and i2 < len(citations) and not isinstance(citations[i2], ReferenceCitation), citations[i2].span() != citations[i].span())), "
                                 "exists(lambda j: 0 <= j and j < len(result) and result[j] is citations[i])))",
     })
 
@@ -51,24 +52,33 @@ WF_OF = "{x} is not None and forall(lambda i: implies(0 <= i and i < len({x}), c
 ghost_code("helpers.filter_citations", "after:Assign#1", "assert " + WF_OF.format(x="citations") + ", 'deduped_wf'")
 ghost_code("helpers.filter_citations", "after:Assign#2", "assert " + WF_OF.format(x="sorted_citations") + ", 'sorted_wf'")
 ghost_code("helpers.filter_citations", "loop1:body_start", "assert cit_wf(citation) and citation.token.start is not None and citation.token.end is not None, 'current_wf'")
+# the de-duplication runs over D = sorted(citations, key=<is not a reference>): a stable permutation of the argument with the reference citations
+# first, so that among citations with one span the last writer is a non-reference citation whenever there is one
 ghost_code("helpers.filter_citations", "after:Assign#1",
-    "assert forall(lambda b: implies(0 <= b and b < len(citations), 0 <= dedupe_src(citations, b) and dedupe_src(citations, b) < len(old(citations)) "
-    "and citations[b] is old(citations)[dedupe_src(citations, b)])), 'dedupe_sources'\n"
-    "assert forall(lambda i: implies(0 <= i and i < len(old(citations)) and forall(lambda i2: implies(i < i2 and i2 < len(old(citations)), old(citations)[i2].span() != old(citations)[i].span())), "
-    "exists(lambda j: 0 <= j and j < len(citations) and citations[j] is old(citations)[i]))), 'dedupe_keeps_last'\n"
+    "assert forall(lambda b: implies(0 <= b and b < len(citations), 0 <= dedupe_src(citations, b) and dedupe_src(citations, b) < len(dedupe_input(citations)) "
+    "and citations[b] is dedupe_input(citations)[dedupe_src(citations, b)] and 0 <= dsrc(citations, b) and dsrc(citations, b) < len(old(citations)) "
+    "and citations[b] is old(citations)[dsrc(citations, b)])), 'dedupe_sources'\n"
+    "assert forall(lambda i: implies(0 <= i and i < len(old(citations)), 0 <= sort_inv(dedupe_input(citations), i) and sort_inv(dedupe_input(citations), i) < len(old(citations)) "
+    "and dedupe_input(citations)[sort_inv(dedupe_input(citations), i)] is old(citations)[i] and sort_src(dedupe_input(citations), sort_inv(dedupe_input(citations), i)) == i)), 'presort_is_permutation'\n"
+    "assert forall(lambda i: implies(0 <= i and i < len(old(citations)) and not isinstance(old(citations)[i], ReferenceCitation) "
+    "and forall(lambda i2: implies(i < i2 and i2 < len(old(citations)) and not isinstance(old(citations)[i2], ReferenceCitation), old(citations)[i2].span() != old(citations)[i].span())), "
+    "dedupe_src(citations, dedupe_rep(citations, sort_inv(dedupe_input(citations), i))) == sort_inv(dedupe_input(citations), i))), 'nonref_is_last_writer'\n"
+    "assert forall(lambda i: implies(0 <= i and i < len(old(citations)) and not isinstance(old(citations)[i], ReferenceCitation) "
+    "and forall(lambda i2: implies(i < i2 and i2 < len(old(citations)) and not isinstance(old(citations)[i2], ReferenceCitation), old(citations)[i2].span() != old(citations)[i].span())), "
+    "exists(lambda j: 0 <= j and j < len(citations) and citations[j] is old(citations)[i]))), 'dedupe_keeps_nonref'\n"
     "assert forall(lambda j: implies(0 <= j and j < len(citations), exists(lambda i: 0 <= i and i < len(old(citations)) and citations[j] is old(citations)[i]))), 'dedupe_subseq'")
 ghost_code("helpers.filter_citations", "after:Assign#2",
     "assert forall(lambda a, b: implies(0 <= a and a < b and b < len(sorted_citations), sorted_citations[a].span() != sorted_citations[b].span())), 'sorted_distinct_spans'\n"
     "assert forall(lambda j: implies(0 <= j and j < len(citations), exists(lambda a: 0 <= a and a < len(sorted_citations) and sorted_citations[a] is citations[j]))), 'sorted_keeps_all'\n"
     "assert forall(lambda a: implies(0 <= a and a < len(sorted_citations), 0 <= sort_src(sorted_citations, a) and sort_src(sorted_citations, a) < len(citations) "
     "and sorted_citations[a] is citations[sort_src(sorted_citations, a)])), 'sorted_subseq'\n"
-    "assert forall(lambda a: implies(0 <= a and a < len(sorted_citations), 0 <= dedupe_src(citations, sort_src(sorted_citations, a)) "
-    "and dedupe_src(citations, sort_src(sorted_citations, a)) < len(old(citations)) "
-    "and sorted_citations[a] is old(citations)[dedupe_src(citations, sort_src(sorted_citations, a))])), 'sorted_sources'")
+    "assert forall(lambda a: implies(0 <= a and a < len(sorted_citations), 0 <= dsrc(citations, sort_src(sorted_citations, a)) "
+    "and dsrc(citations, sort_src(sorted_citations, a)) < len(old(citations)) "
+    "and sorted_citations[a] is old(citations)[dsrc(citations, sort_src(sorted_citations, a))])), 'sorted_sources'")
 ghost_code("helpers.filter_citations", "at:return",
     "assert forall(lambda j: implies(0 <= j and j < len(result), 0 <= sort_src(result, j) and sort_src(result, j) < len(filtered_citations) and result[j] is filtered_citations[sort_src(result, j)])), 'result_is_permutation'\n"
-    "assert forall(lambda j: implies(0 <= j and j < len(result), result[j] is old(citations)[dedupe_src(citations, sort_src(sorted_citations, ghost.fidx[sort_src(result, j)]))] "
-    "and 0 <= dedupe_src(citations, sort_src(sorted_citations, ghost.fidx[sort_src(result, j)])) and dedupe_src(citations, sort_src(sorted_citations, ghost.fidx[sort_src(result, j)])) < len(old(citations)))), 'result_sources'")
+    "assert forall(lambda j: implies(0 <= j and j < len(result), result[j] is old(citations)[dsrc(citations, sort_src(sorted_citations, ghost.fidx[sort_src(result, j)]))] "
+    "and 0 <= dsrc(citations, sort_src(sorted_citations, ghost.fidx[sort_src(result, j)])) and dsrc(citations, sort_src(sorted_citations, ghost.fidx[sort_src(result, j)])) < len(old(citations)))), 'result_sources'")
 
 
 @spec("sort_src")
@@ -78,6 +88,45 @@ def _sort_src(e, st, s, a):
     if not (s.tag and s.tag[0] == "sorted"):
         return SV(INT, a.v)          # not a sorted() result: identity
     return SV(INT, s.tag[2](a.v))
+
+
+@spec("sort_inv")
+def _sort_inv(e, st, s, i):
+    """position in sorted(input) of the i-th input element (inverse of the ghost permutation of E-SORTED)"""
+    from pyvc.values import SV, INT
+    if not (s.tag and s.tag[0] == "sorted"):
+        return SV(INT, i.v)
+    return SV(INT, s.tag[3](i.v))
+
+
+@spec("dedupe_input")
+def _dedupe_input(e, st, s):
+    """the sequence the {key: x for x in <seq>} comprehension iterated over"""
+    if not (s.tag and s.tag[0] == "dedupe"):
+        raise Exception("dedupe_input: not a de-duplicated sequence")
+    return s.tag[1]
+
+
+@spec("dedupe_rep")
+def _dedupe_rep(e, st, s, i):
+    """index in the de-duplicated result of the element kept for the key of input element i"""
+    from pyvc.values import SV, INT
+    if not (s.tag and s.tag[0] == "dedupe"):
+        raise Exception("dedupe_rep: not a de-duplicated sequence")
+    return SV(INT, s.tag[3](i.v))
+
+
+@spec("dsrc")
+def _dsrc(e, st, s, j):
+    """index in the ARGUMENT list of the j-th de-duplicated citation: through the de-duplication witness and the pre-sort permutation"""
+    from pyvc.values import SV, INT
+    if not (s.tag and s.tag[0] == "dedupe"):
+        raise Exception("dsrc: not a de-duplicated sequence")
+    src = s.tag[1]
+    w = s.tag[2](j.v)
+    if src.tag and src.tag[0] == "sorted":
+        return SV(INT, src.tag[2](w))
+    return SV(INT, w)
 
 
 @spec("dedupe_src")
